@@ -58,6 +58,13 @@ pub fn mix2(a: u64, b: u64) -> u64 {
     mix(mix(a) ^ b.wrapping_mul(0xD1B54A32D192ED03))
 }
 
+/// Panics that are not a verdict of the named property by themselves (property, fragment of the panic location).
+/// C16: foyer's flusher task asserts that an entry fits into a region of the disk tier (min(64 MiB, l2_size)); with an
+/// object larger than that the task dies and the disk tier stops caching. Reads stay exact (shown on the real code,
+/// findings/C16-object-larger-than-disk-tier-region-demo.rs) - which is all C16 states, and what the check goes on
+/// checking for the rest of the run.
+const NOT_JUDGED_PANICS: &[(&str, &str)] = &[("C16", "/foyer-storage-")];
+
 thread_local! {
     static PANICS: std::cell::RefCell<Vec<String>> = const { std::cell::RefCell::new(Vec::new()) };
 }
@@ -152,6 +159,10 @@ pub fn run_child(spec: RunSpec, scen: ScenFn, cpu: usize) -> RunOut {
             for p in &panics {
                 if p.contains("/verif/sim/") || p.starts_with("src/") {
                     out.harness_error = format!("panic in harness: {p}");
+                } else if NOT_JUDGED_PANICS.iter().any(|(prop, frag)| *prop == spec.prop && p.contains(frag)) {
+                    // a background task of a dependency died; the property's own clauses (here: every read is
+                    // exact) keep being checked - see DESIGN 8.2
+                    *out.probes.entry("background-task-of-a-dependency-panicked(not judged)".into()).or_insert(0) += 1;
                 } else {
                     let loc = p.split(": ").next().unwrap_or("").to_string();
                     let short = loc.rsplit('/').next().unwrap_or("").to_string();
